@@ -27,6 +27,8 @@ func init() {
 	plans["C07"] = []Part{
 		{WL: "combine", Cfg: "prop=C07", Quick: 6000, Thor: 150000},
 		{WL: "combine", Cfg: "prop=C07,twin=1", Quick: 3000, Thor: 80000},
+		// whole operator: what the hook's context file holds when a merged execution fails and is retried
+		{WL: "opsim", Cfg: "prop=C07", Quick: 250, Thor: 6000},
 	}
 }
 
